@@ -210,6 +210,24 @@ func c18(c *Ctx) {
 					return false
 				}
 				bad := ""
+				// the signed value the negated one was read from (ns := d.Nanoseconds(); if ns < 0 { ns = -ns }): the
+				// duration itself must not be used for anything but that read, or the sign is back in the arithmetic
+				if call, ok := raw.(*ssa.Call); ok && len(call.Call.Args) == 1 && call.Call.Args[0].Referrers() != nil {
+					if cal := call.Call.StaticCallee(); cal != nil && cal.Name() == "Nanoseconds" {
+						for _, ref := range *call.Call.Args[0].Referrers() {
+							if ref == ssa.Instruction(call) {
+								continue
+							}
+							if _, isDbg := ref.(*ssa.DebugRef); isDbg {
+								continue
+							}
+							if ref.Block() != nil && nonNegSide(ref.Block()) {
+								continue
+							}
+							bad = p.Position(ref.Pos())
+						}
+					}
+				}
 				for _, ref := range *raw.Referrers() {
 					if ref.Block() != nil && nonNegSide(ref.Block()) {
 						continue
